@@ -746,6 +746,7 @@ def _sbml_to_model(
             cobra_gene.annotation = _parse_annotations(gp)
             cobra_gene.notes = _parse_notes_dict(gp)
 
+            cobra_gene._model = cobra_model
             cobra_model.genes.append(cobra_gene)
     else:
         for (
@@ -778,6 +779,7 @@ def _sbml_to_model(
                     if gid not in cobra_model.genes:
                         cobra_gene = Gene(gid)
                         cobra_gene.name = gid
+                        cobra_gene._model = cobra_model
                         cobra_model.genes.append(cobra_gene)
 
     # GPR rules
